@@ -108,7 +108,8 @@ def nlits_of(case, boreal):
     out, k = {}, 0
     for r in order:
         n = len(r["strings"])
-        out[r["id"]] = [d[0] for d in desc[k:k + n]] if len(desc) == total else [0] * n
+        out[r["id"]] = [(d[0], bool(d[2]) if len(d) > 2 else False) for d in desc[k:k + n]] if len(desc) == total \
+            else [(0, False)] * n
         k += n
     return out
 
@@ -116,11 +117,11 @@ def nlits_of(case, boreal):
 def g_rule(r, nlits=None):
     pr = Printer([s["name"] for s in r["strings"]])
     c = tup(r["cond"])
-    nl = (nlits or {}).get(r["id"]) or [0] * len(r["strings"])
+    nl = (nlits or {}).get(r["id"]) or [(0, False)] * len(r["strings"])
     return ("{| c_ns := %d%%nat; c_id := %d; c_global := %s; c_private := %s; c_strings := %s; c_nlits := %s; "
-            "c_cond := %s |}"
+            "c_glue := %s; c_cond := %s |}"
             % (r["ns"], r["id"], gbool(r["global"]), gbool(r["private"]), glist(g_string(s) for s in r["strings"]),
-               glist(gN(x) for x in nl), "None" if has_raw(c) else "(Some %s)" % pr.g(c)))
+               glist(gN(x[0]) for x in nl), glist(gbool(x[1]) for x in nl), "None" if has_raw(c) else "(Some %s)" % pr.g(c)))
 
 
 def g_obs(case, scan, default=None):
@@ -964,7 +965,7 @@ class C07(Prop):
     KF = {K_FIXED_OFFSET: "C07-fixed-offset-listing", K_START_POS: "C07-start-position", K_FULLWORD_LEN: "C07-fullword-single-length",
           K_GLOBAL_REFS: "C07-global-refs-ordinary", K_LIST_UNDEF: "C07-list-undefined-element",
           K_HIGH_BYTE_ORDER: "C07-string-order-high-bytes", K_UNDEF_QUANT: "C07-undefined-quantifier",
-          K_ALT_FIRST: "C07-hex-alt-first-uneven", K_WIDE_ASCII_WB: "C07-wide-ascii-boundary"}
+          K_ALT_FIRST: "C07-alt-glue", K_WIDE_ASCII_WB: "C07-wide-ascii-boundary"}
     # classes 17 (C07-empty-class, fixed 861b829) and 18 (C07-regex-span-panic, fixed c526a27) are no longer produced
     RULE = ("generated rule files of the shared dialect: 1-4 rules over 1-2 namespaces (global / private / plain, "
             "references to earlier rules and to global rules), 0-3 strings per rule drawn from the C01 text generator "
@@ -1086,7 +1087,7 @@ class C07(Prop):
                 ctx.count("string=" + s["kind"])
         nl = nlits_of(case, b)
         for r in case["rules"]:
-            for x in nl[r["id"]]:
+            for x, _ in nl[r["id"]]:
                 ctx.count("literals=%s" % ("0" if x == 0 else "1" if x == 1 else ">1"))
         return "C07_case %s %s %s %s %s %s" % (glist(g_rule(r, nl) for r in case["rules"]), ins, yobs, bobs, bdef,
                                                gbool(not errs))
